@@ -2178,7 +2178,58 @@ def run(ck):
             if q["k"] == "CXXTryStmt":
                 tries.append(q)
             q = worker.parent(q)
+        JUMPS = ("ReturnStmt", "BreakStmt", "ContinueStmt", "GotoStmt", "IndirectGotoStmt", "CoreturnStmt")
+        THROWING = ("rethrow_exception", "throw_with_nested", "rethrow_if_nested")
+
+        def is_throw(x):
+            return x["k"] == "CXXThrowExpr" or ("callee" in x and (x["callee"] or {}).get("name") in THROWING)
+
+        def handler_throw(f, h):
+            """The throw expression that ends handler h on its straight-line path, None when h contains no throw at all;
+            Undecidable when a throw sits inside control flow of the handler."""
+            if not any(is_throw(y) for y in ir.walk(h)):
+                return None
+            hk = kids(h)
+            body = hk[-1] if hk and hk[-1]["k"] == "CompoundStmt" else None
+            if body is None:
+                undecided(f, h, "catch handler contains a throw expression but its body is not a compound statement")
+            flat = []
+
+            def flatten(c):
+                for s in kids(c):
+                    if s["k"] == "CompoundStmt":
+                        flatten(s)
+                    else:
+                        flat.append(s)
+            flatten(body)
+            for s in flat:
+                e = s
+                while e["k"] in ("ExprWithCleanups", "ParenExpr", "ImplicitCastExpr", "CStyleCastExpr") and len(kids(e)) >= 1:
+                    e = kids(e)[-1]
+                if is_throw(e):
+                    return e
+                if s["k"] in JUMPS:
+                    return None          # the throw below is unreachable; the jump is judged by the path rules
+                inner = [y for y in ir.walk(s) if is_throw(y) or y["k"] in JUMPS]
+                if inner:
+                    undecided(f, inner[0], "catch handler of the try around job() contains a throw expression and control flow (%s) that is not followed: "
+                              "whether the exceptional path leaves worker() before ++done_ / --busy_ is not decided" % inner[0]["k"])
+            undecided(f, h, "catch handler contains a throw expression that is not on its straight-line path")
+
+        def rethrow_violation(f, h, th, via):
+            ck.violation("EXCEPTION-BALANCED", worker.qname, "handler-throws",
+                         "the catch handler of the try around job() ends in a throw expression%s: counterexample: a job throws std::runtime_error -> the handler "
+                         "rethrows -> worker() is left with busy_ incremented and done_ not incremented (the worker thread dies) -> loop_until_empty() waits "
+                         "for busy_ == 0 for ever" % via, f.nloc(th))
+
         if not tries and helper is not None and any(y["k"] == "CXXTryStmt" for y in helper.nodes()):
+            for y in helper.nodes():
+                if y["k"] == "CXXTryStmt":
+                    for h in kids(y)[1:]:
+                        th = handler_throw(helper, h)
+                        if th is not None:
+                            rethrow_violation(helper, h, th, " (in %s(), called from worker() outside any try block)" % helper.name)
+                            return
             ck.ok("EXCEPTION-BALANCED", worker.qname, "the job runs inside %s(), whose try block contains nothing but the invocation" % helper.name)
             return
         if not tries:
@@ -2203,6 +2254,16 @@ def run(ck):
                     out.append((x, x["callee"]["name"] + "()"))
             return out
         in_handlers = [set(w for n, w in steps(h)) for h in handlers]
+        for h, done_here in zip(handlers, in_handlers):
+            th = handler_throw(worker, h)
+            if th is None:
+                continue
+            if len(tries) > 1:
+                undecided(worker, th, "catch handler rethrows into an enclosing try block: where the exceptional path continues is not decided")
+            if "busy_" in done_here or "done_" in done_here:
+                undecided(worker, th, "catch handler touches busy_/done_ and then throws: the accounting on the exceptional path is not decided")
+            rethrow_violation(worker, h, th, "")
+            return
         in_try = set(y["id"] for y in ir.walk(t))
         outside = set(w for n, w in steps(worker.body) if n["id"] not in in_try and g.pos_deep(n) is not None and g.dominates(pcall, g.pos_deep(n)))
         really = []
